@@ -53,13 +53,15 @@ def addNewState (natName : Nat → σ) (states : List σ) (start : Nat) : Nat :=
 
 /-! ### `from_dfa` / `from_nfa` -/
 
-/-- `from_dfa`: `gnfa_transitions` of one state, symbols on the same target joined by `|`
-in the iteration order of the row. -/
-def mergeDfaRow (row : List (Char × σ)) : List (σ × Str) :=
-  row.foldl (fun acc e =>
-    match alookup e.2 acc with
-    | some old => ainsert e.2 (old ++ '|' :: [e.1]) acc
-    | none => ainsert e.2 [e.1] acc) []
+/-- `from_dfa`, body of `for input_symbol, to_state in row.items()`: a further symbol on the
+same target is appended with `|`. -/
+def mergeDfaStep (acc : List (σ × Str)) (e : Char × σ) : List (σ × Str) :=
+  match alookup e.2 acc with
+  | some old => ainsert e.2 (old ++ '|' :: [e.1]) acc
+  | none => ainsert e.2 [e.1] acc
+
+/-- `from_dfa`: `gnfa_transitions` of one state, in the iteration order of the row. -/
+def mergeDfaRow (row : List (Char × σ)) : List (σ × Str) := row.foldl mergeDfaStep []
 
 /-- `input_symbol` as a string (`none` is `""`). -/
 def symStr : Option Char → Str
@@ -73,14 +75,16 @@ def mergeNfaLabel (old : Str) (sym : Option Char) : Str :=
     (if isBracketReq old then '(' :: old ++ [')', '?'] else old ++ ['?'])
   else old ++ '|' :: symStr sym
 
+/-- `from_nfa`, body of `for to_state in to_states` for the symbol `sym`. -/
+def mergeNfaStep (sym : Option Char) (acc : List (σ × Str)) (t : σ) : List (σ × Str) :=
+  match alookup t acc with
+  | some old => ainsert t (mergeNfaLabel old sym) acc
+  | none => ainsert t (symStr sym) acc
+
 /-- `from_nfa`: `gnfa_transitions` of one state (`for input_symbol, to_states in row.items():
 for to_state in to_states`). -/
 def mergeNfaRow (row : List (Option Char × List σ)) : List (σ × Str) :=
-  row.foldl (fun acc e =>
-    e.2.foldl (fun acc t =>
-      match alookup t acc with
-      | some old => ainsert t (mergeNfaLabel old e.1) acc
-      | none => ainsert t (symStr e.1) acc) acc) []
+  row.foldl (fun acc e => e.2.foldl (mergeNfaStep e.1) acc) []
 
 /-- `Dict[state, str]` seen as `Dict[state, Optional[str]]` (the `cast`). -/
 def castRow (row : List (σ × Str)) : List (σ × Option Str) := row.map fun e => (e.1, some e.2)
@@ -135,23 +139,29 @@ def finishBuild (rxValid : Str → Res Bool) (natName : Nat → σ) (srcStates :
       | .ok _ => .ok g
       | .error e => .error e
 
-/-- The first loop of `from_dfa`: one row per state (empty when the state has no row). -/
+/-- `from_dfa`: the row built for `state` (`dict()` when the state has no row). -/
+def dfaRowFor (d : DFA σ Char) (q : σ) : List (σ × Option Str) :=
+  match alookup q d.trans with
+  | some row => castRow (mergeDfaRow row)
+  | none => []
+
+/-- The first loop of `from_dfa`: `for state in target_dfa.states`. -/
 def dfaRows (d : DFA σ Char) : List (σ × List (σ × Option Str)) :=
-  (dedup d.states).foldl (fun rows q =>
-    match alookup q d.trans with
-    | some row => ainsert q (castRow (mergeDfaRow row)) rows
-    | none => ainsert q [] rows) []
+  (dedup d.states).foldl (fun rows q => ainsert q (dfaRowFor d q) rows) []
 
 /-- `GNFA.from_dfa(target_dfa)`. -/
 def fromDFA (rxValid : Str → Res Bool) (natName : Nat → σ) (d : DFA σ Char) : Res (GNFA σ Str) :=
   finishBuild rxValid natName d.states d.syms (dfaRows d) d.init d.finals
 
-/-- The first loop of `from_nfa`. -/
+/-- `from_nfa`: the row built for `state`. -/
+def nfaRowFor (n : NFA σ Char) (q : σ) : List (σ × Option Str) :=
+  match alookup q n.trans with
+  | some row => castRow (mergeNfaRow row)
+  | none => []
+
+/-- The first loop of `from_nfa`: `for state in target_nfa.states`. -/
 def nfaRows (n : NFA σ Char) : List (σ × List (σ × Option Str)) :=
-  (dedup n.states).foldl (fun rows q =>
-    match alookup q n.trans with
-    | some row => ainsert q (castRow (mergeNfaRow row)) rows
-    | none => ainsert q [] rows) []
+  (dedup n.states).foldl (fun rows q => ainsert q (nfaRowFor n q) rows) []
 
 /-- `GNFA.from_nfa(target_nfa)`. -/
 def fromNFA (rxValid : Str → Res Bool) (natName : Nat → σ) (n : NFA σ Char) : Res (GNFA σ Str) :=
